@@ -428,3 +428,61 @@ impl Bitfield {
         }
     }
 }
+
+/// Lemma Z4: a bitfield whose first k bits are zero and all others one has exactly k zeros
+/// (ties the explicit patterns written by initialisation to the counters it stores).
+#[kani::proof]
+#[kani::unwind(10)]
+fn l1a_zeros_lemma_prefix() {
+    let k: usize = kani::any();
+    kani::assume(k <= Bitfield::LEN);
+    let mut r = [0u64; ROWS];
+    let mut i = 0;
+    while i < ROWS {
+        let lo = i * 64;
+        r[i] = if k >= lo + 64 { 0 } else if k <= lo { u64::MAX } else { u64::MAX << (k - lo) };
+        i += 1;
+    }
+    clause!(rows_zeros(&r) == k, "Z4: prefix pattern has exactly k zeros");
+}
+
+// ---------------------------------------------------------------------------------------------
+// Ghost-array stubs for the initialisation code (C06): `fill` and `set` by contract, acting on a
+// ghost copy of the rows that is indexed by the bitfield's position in the metadata array.
+// Initialisation reaches bitfields through slices whose split point depends on the (symbolic)
+// frame count; CBMC's byte-level updates through such pointers are intractable, array updates
+// on the ghost copy are not. The contracts are the ones checked by l1a_fill_count_zeros and
+// l1a_set_range.
+// ---------------------------------------------------------------------------------------------
+pub(crate) const G_MAX: usize = 16;
+pub(crate) static mut G_ROWS: [Rows; G_MAX] = [[0; ROWS]; G_MAX];
+pub(crate) static mut G_BASE: usize = 0; // address of bitfield 0 of the metadata array
+pub(crate) static mut G_STRIDE: usize = 64;
+
+fn ghost_index(b: &Bitfield) -> usize {
+    let a = b as *const Bitfield as usize;
+    let (base, stride) = unsafe { (G_BASE, G_STRIDE) };
+    kani::assert(a >= base && (a - base) % stride == 0 && (a - base) / stride < G_MAX, "ghost bitfield index: pointer inside the metadata array");
+    (a - base) / stride
+}
+impl Bitfield {
+    pub(crate) fn fill_contract(&self, v: bool) {
+        let h = ghost_index(self);
+        unsafe { G_ROWS[h] = [if v { u64::MAX } else { 0 }; ROWS] };
+    }
+    pub(crate) fn set_contract(&self, range: Range<FrameId>, v: bool) {
+        let (s, e) = (range.start.0, range.end.0);
+        kani::assert(s <= e && e <= Self::LEN && s < Self::LEN, "Bitfield::set precondition: the range lies inside one bitfield");
+        let h = ghost_index(self);
+        let mut r = 0;
+        while r < ROWS {
+            let lo = if s > r * 64 { s - r * 64 } else { 0 };
+            let hi = if e > r * 64 { if e - r * 64 > 64 { 64 } else { e - r * 64 } } else { 0 };
+            let m = if hi > lo && lo < 64 { (u64::MAX >> (64 - (hi - lo))) << lo } else { 0 };
+            unsafe {
+                G_ROWS[h][r] = if v { G_ROWS[h][r] | m } else { G_ROWS[h][r] & !m };
+            }
+            r += 1;
+        }
+    }
+}
